@@ -161,7 +161,7 @@ impl Property for C02 {
     }
     fn runs(&self, tier: Tier) -> u64 {
         match tier {
-            Tier::Quick => 40_000,
+            Tier::Quick => 90_000,
             Tier::Thorough => 1_200_000,
         }
     }
